@@ -1,22 +1,19 @@
 INIT Init
 NEXT Next
 CONSTANTS
-  Variant = "design"
+  Variant = "impl_r1only_read2"
   LenA = 6
   LenB = 2
   BinSizes = {2, 3}
   Bpjs = {1, 2, 4}
   Mfss = {0, 2}
-  KindSet = {"good", "dup", "notr1", "unpaired", "lowmq", "mp_multi", "good_s2"}
+  KindSet = {"good", "unpaired"}
   KwargsSet = {"none", "empty"}
-  UseKeySet = {TRUE, FALSE}
+  UseKeySet = {FALSE}
   NFiles = 1
   MaxRecs = 1
   Threads = 2
-INVARIANT Inv_C12_Total_NoRaise
 INVARIANT Inv_C12_Matrix
 INVARIANT Inv_C12_Invariant
 INVARIANT Inv_C12_Total
-INVARIANT Inv_D_Partial
-INVARIANT Inv_D_BinHasOneJob
 CHECK_DEADLOCK FALSE
